@@ -478,6 +478,15 @@ func runDidStream(c *ctx) error {
 			_, m, _ := codeAndMaterial(s)
 			add(0x1205, append(append([]byte(nil), m...), 0))
 			add(0x1205, m[:len(m)-3])
+			// extra elements at the END of the PKCS#1 SEQUENCE {n, e, …} (encoding/asn1 tolerates them): valid DER, minimal lengths, the
+			// same key — and not the identifier FromPubKey builds for it
+			if len(m) > 4 && m[0] == 0x30 && m[1] == 0x82 {
+				l := int(m[2])<<8 | int(m[3])
+				for _, extra := range [][]byte{{0x02, 0x01, 0x00}, {0x05, 0x00}, {0x02, 0x01, 0x01, 0x02, 0x01, 0x02}} {
+					nl := l + len(extra)
+					add(0x1205, append(append([]byte{0x30, 0x82, byte(nl >> 8), byte(nl)}, m[4:]...), extra...))
+				}
+			}
 			// non-minimal DER length of the outer SEQUENCE: 30 82 LL LL -> 30 83 00 LL LL
 			if len(m) > 4 && m[0] == 0x30 && m[1] == 0x82 {
 				add(0x1205, append([]byte{0x30, 0x83, 0x00, m[2], m[3]}, m[4:]...))
